@@ -303,3 +303,42 @@ func specTrimLen(start, stop, n int) int {
 	}
 	return stop - s + 1
 }
+
+// BITPOS (C18): the first and last bit of the range start..end given in units
+// of width bits (8: bytes, 1: bits) on a value of nbits bits. Negative indexes
+// count from the end; the range ends with the LAST bit of the end unit; both
+// ends clamp into the value (an empty range has specBpEnd < specBpStart or
+// specBpStart beyond the value).
+func specBpClamp(idx, nbits int) int {
+	if idx > nbits {
+		return nbits
+	}
+	if idx < -nbits {
+		return -nbits
+	}
+	return idx
+}
+
+func specBpStart(nbits, idx, width int) int {
+	i := specBpClamp(idx, nbits)
+	b := i * width
+	if i < 0 {
+		b = nbits + i*width
+	}
+	if b < 0 {
+		b = 0
+	}
+	return b
+}
+
+func specBpEnd(nbits, idx, width int) int {
+	i := specBpClamp(idx, nbits)
+	b := i*width + width - 1
+	if i < 0 {
+		b = nbits + i*width + width - 1
+	}
+	if b > nbits-1 {
+		b = nbits - 1
+	}
+	return b
+}
